@@ -42,7 +42,7 @@ CHECKS = {
   "C10": ("model_checking",
           "deviation-bounded schedule exploration + grid of request kinds x listener action scripts x max_ports x connect_queue on real endpoints; id-based ground truth and label echo pairing oracle; wire-ledger connect_queue invariant",
           "Request kinds: wait / no-wait / plain / over-port(wait,no-wait) / cancelled; listener actions: accept, inspect+accept, reject(no_ports t/f), drop, cancelled Listener::accept, cancelled Request::accept; pairs and triples over max_ports and connect_queue incl. exhaustion; after teardown every request must be resolved with the classification matching what the listener did; accepted pairs echo their ids both ways; unanswered OpenPort <= advertised connect_queue at every wire prefix; request visible to the listener before data sent after Connect::sent().",
-          "Cfg::ports_exhausted is never read by the implementation (documented finding F7) and is therefore not an enumerated dimension; per-request wait flags are.",
+          "The configured default exhaustion policy Cfg::ports_exhausted (fail / wait / wait 5 s) is enumerated with all local ports in use and the port freed never / after 2 s / after 20 s; it is never read by the implementation (known finding F7, two signatures).",
           "DESIGN.md 4/C10"),
   "C11": ("model_checking",
           "deviation-bounded schedule exploration (d<=2/3) of close / receiver drop / sender drop / cancelled close at every position of a 4-message stream with a chunked message on real chmux ports; bounded exhaustive enumeration of the same events (plus connection cut) on every typed channel kind and placement, with schedule exploration of the racing cases",
